@@ -62,7 +62,11 @@ impl SourcePath {
                 let Some(name) = ancestor.file_name() else {
                     return Ok(absolute);
                 };
-                suffix = PathBuf::from(name).join(suffix);
+                suffix = if suffix.as_os_str().is_empty() {
+                    PathBuf::from(name)
+                } else {
+                    PathBuf::from(name).join(suffix)
+                };
                 let Some(parent) = ancestor.parent() else {
                     return Ok(absolute);
                 };
